@@ -528,7 +528,9 @@ def r13_7(ctx):
     prog = ctx.prog
     f = prog.own_method("Stage", "_set_transcribed")
     sc = ctx.scope(f)
-    ws = [st for st in walk_no_nested(f.node) if isinstance(st, ast.Assign)]
+    # the write of the flag itself (bookkeeping of other attributes next to it is not this rule's business)
+    allw = [st for st in walk_no_nested(f.node) if isinstance(st, ast.Assign)]
+    ws = [st for st in allw if ast.unparse(st.targets[0]).endswith("._var_is_transcribed") or ast.unparse(st.targets[0]).endswith("._is_transcribed")] or allw
     ok = len(ws) == 1 and ast.unparse(ws[0].targets[0]) == "self.master._var_is_transcribed" and ast.unparse(ws[0].value) == f.params[1]
     ctx.check(ok, "Stage._set_transcribed writes the master's flag", detail="invalidation recorded on the wrong object (sub-stage edits ignored)",
               expected="self.master._var_is_transcribed = val", found="; ".join(ast.unparse(w) for w in ws), fi=f)
